@@ -185,7 +185,7 @@ class HTTPChannel(wasyncore.dispatcher):
             self.current_outbuf_count += num_bytes
             self.total_outbufs_len += num_bytes
             self.sent_continue = True
-            self._flush_some()
+            self._flush_exception(self._flush_some, do_close=False)
 
     def received(self, data):
         """
@@ -493,12 +493,9 @@ class HTTPChannel(wasyncore.dispatcher):
 
             # Add new task to process the next request
             with self.requests_lock:
-                self.requests.pop(0)
-
-                if self.connected and self.requests:
-                    self.server.add_task(self)
-                elif (
-                    self.connected
+                if (
+                    len(self.requests) == 1
+                    and self.connected
                     and self.request is not None
                     and self.request.expect_continue
                     and self.request.headers_finished
@@ -506,8 +503,14 @@ class HTTPChannel(wasyncore.dispatcher):
                 ):
                     # A request waits for a signal to continue, but we could
                     # not send it until now because requests were being
-                    # processed and the output needs to be kept in order
+                    # processed and the output needs to be kept in order.
+                    # Queue it while this task still owns the output buffers.
                     self.send_continue()
+
+                self.requests.pop(0)
+
+                if self.connected and self.requests:
+                    self.server.add_task(self)
 
         if self.connected:
             self.server.pull_trigger()
